@@ -1,31 +1,94 @@
 (* C02 — Combine groups job outputs into an exact, ordered partition. *)
-From Pydra Require Import Base.Prelude Model.State Spec.State.
+From Coq Require Import Permutation Sorting.Sorted.
+From Pydra Require Import Base.Prelude Model.State Spec.State Proofs.State Proofs.StateComb Proofs.StateProj.
 
-Definition groups_of (r : cerr + (list assignment * list (list nat))) : option (list (list nat)) :=
-  match r with inr (_, g) => Some g | inl _ => None end.
-
-(* the property at full strength: for every well-formed splitter, every combiner subset of its fields and all
-   non-empty lists, the groups the model of State.prepare_states computes are the reference partition *)
+(* the property at full strength: for every well-formed splitter, every non-empty combiner subset of its fields
+   and all non-empty lists, the groups the model of State.prepare_states computes are the reference partition *)
 Definition C02_full_statement : Prop :=
   forall (e : env) (s : spl) (comb : list nat),
-    wf s -> (forall x, In x comb -> In x (leaves s)) -> (forall f, In f (leaves s) -> nprod (e f) >= 1) ->
-    jobs e s <> None ->
+    wf s -> comb <> [] -> (forall x, In x comb -> In x (leaves s)) ->
+    (forall f, In f (leaves s) -> nprod (e f) >= 1) -> jobs e s <> None ->
     groups_of (prepare_combined e s comb) = spec_groups e s comb.
 
+(* ['a', ['b', ('c', 'd')]] combined over a, b: the model (and the code) return [[0;2]; []; []; [1;3]] *)
 Theorem C02_refuted : ~ C02_full_statement.
 Proof.
   intros H.
   specialize (H (fun f => nth f [[2]; [1]; [2]; [2]] []) (Outer [Fld 0; Outer [Fld 1; Inner [Fld 2; Fld 3]]]) [0; 1]).
   assert (W : wf (Outer [Fld 0; Outer [Fld 1; Inner [Fld 2; Fld 3]]])).
   { split; [reflexivity|]. repeat constructor; cbn; intuition discriminate. }
-  specialize (H W).
+  specialize (H W ltac:(discriminate)).
   assert (A : forall x, In x [0; 1] -> In x (leaves (Outer [Fld 0; Outer [Fld 1; Inner [Fld 2; Fld 3]]]))).
   { cbn. intuition. }
   specialize (H A).
   assert (B : forall f, In f (leaves (Outer [Fld 0; Outer [Fld 1; Inner [Fld 2; Fld 3]]])) ->
                         nprod (nth f [[2]; [1]; [2]; [2]] []) >= 1).
   { cbn. intros f [<-|[<-|[<-|[<-|[]]]]]; cbn; lia. }
-  specialize (H B). vm_compute in H. assert (C : Some [[(0,0)]] <> (None : option (list assignment))) by discriminate.
-  specialize (H ltac:(discriminate)). discriminate.
+  specialize (H B). vm_compute in H. specialize (H ltac:(discriminate)). discriminate.
 Qed.
 Print Assumptions C02_refuted.
+
+(* no output is lost or duplicated, members stay in enumeration order: whenever the model of
+   State.prepare_states (with combiner) returns groups, every job index occurs in exactly one group *)
+Theorem C02_partition : forall (e : env) (s : spl) (comb : list nat) si m,
+  prepare_combined e s comb = inr (si, m) ->
+  Permutation (List.concat m) (seq 0 (List.length si)) /\ Forall (StronglySorted lt) m.
+Proof. exact combined_partition. Qed.
+Print Assumptions C02_partition.
+
+(* the strongest positive statement: outside the computable class `good_removalb s comb = false` (finding F02)
+   the groups are one per job of the remaining splitter, in its order, each holding in order the jobs whose
+   remaining fields equal it *)
+Theorem C02_partial : forall (e : env) (s : spl) (comb : list nat),
+  wfb s = true -> NoDup (leaves s) -> comb <> [] -> (forall f, In f (leaves s) -> nprod (e f) >= 1) ->
+  good_removalb s comb = true ->
+  groups_of (prepare_combined e s comb) = spec_groups_pruned e s comb.
+Proof. exact combined_pruned. Qed.
+Print Assumptions C02_partial.
+
+Theorem C02_all : forall (e : env) (s : spl) (comb : list nat) js,
+  wfb s = true -> NoDup (leaves s) -> comb <> [] -> (forall f, In f (leaves s) -> nprod (e f) >= 1) ->
+  good_removalb s comb = true -> jobs e s = Some js -> prune (linked s comb) s = None ->
+  groups_of (prepare_combined e s comb) = Some [seq 0 (List.length js)].
+Proof. exact combined_all. Qed.
+Print Assumptions C02_all.
+
+Theorem C02_linked : forall s comb ax f g,
+  In ax (axes s) -> In f ax -> In f comb -> In g ax -> In g (linked s comb).
+Proof. exact linked_axis. Qed.
+Print Assumptions C02_linked.
+
+(* the two formulations of the reference partition (indexed by the jobs of the remaining splitter / by the
+   distinct remaining assignments in order of first appearance) coincide when every inner product is over plain
+   fields and is combined as a whole or not at all *)
+Theorem C02_formulations_agree : forall (e : env) (s : spl) (comb : list nat),
+  wfb s = true -> flat_innerb s = true -> closedb (linked s comb) s = true ->
+  (forall f, In f (leaves s) -> nprod (e f) >= 1) ->
+  spec_groups_pruned e s comb = spec_groups e s comb.
+Proof. exact pruned_is_distinct. Qed.
+Print Assumptions C02_formulations_agree.
+
+(* hence, for every splitter whose inner products are over plain fields and outside the F02 class, the model
+   computes the property's own partition: one group per distinct assignment of the remaining axes, in order of first
+   appearance, each holding in enumeration order exactly the jobs with that assignment *)
+Theorem C02_partial_flat : forall (e : env) (s : spl) (comb : list nat),
+  wfb s = true -> NoDup (leaves s) -> comb <> [] -> (forall f, In f (leaves s) -> nprod (e f) >= 1) ->
+  flat_innerb s = true -> good_removalb s comb = true ->
+  groups_of (prepare_combined e s comb) = spec_groups e s comb.
+Proof.
+  intros e s comb W ND Hc Pos Fl G.
+  rewrite (combined_pruned e s comb W ND Hc Pos G).
+  apply pruned_is_distinct; try assumption. apply linked_closed; assumption.
+Qed.
+Print Assumptions C02_partial_flat.
+
+(* non-vacuity: the hypotheses of C02_partial hold for the inner-pair splitter when the pair itself is combined,
+   and the two formulations of the reference agree there; they fail for the F02 witness *)
+Example C02_example :
+  let s := Outer [Fld 0; Outer [Fld 1; Inner [Fld 2; Fld 3]]] in
+  let e := fun f => nth f [[2]; [1]; [2]; [2]] [] in
+  good_removalb s [2] = true /\ good_removalb s [0; 1] = false /\
+  groups_of (prepare_combined e s [2]) = Some [[0; 1]; [2; 3]] /\
+  spec_groups e s [2] = Some [[0; 1]; [2; 3]] /\ spec_groups_pruned e s [2] = Some [[0; 1]; [2; 3]] /\
+  linked s [2] = [2; 3] /\ flat_innerb s = true /\ closedb (linked s [2]) s = true.
+Proof. cbv zeta. repeat split; vm_compute; reflexivity. Qed.
